@@ -91,7 +91,11 @@ func vC07Deflate(p []byte) []byte {
 }
 
 func vC07WsStream(masked, deflate bool) func(r *vRng) []byte {
+	adv := vC07WsAdversarial(masked, deflate)
 	return func(r *vRng) []byte {
+		if r.chance(2, 5) {
+			return adv(r)
+		}
 		var out []byte
 		for i, n := 0, r.rng(1, 5); i < n; i++ {
 			switch r.intn(8) {
@@ -129,6 +133,45 @@ func vC07WsStream(masked, deflate bool) func(r *vRng) []byte {
 					}
 				}
 			}
+		}
+		return out
+	}
+}
+
+// Stateful frame sequences that contradict the reader's state: continuation frames without a
+// start, a new data frame inside a fragmented message, fragmented or oversized control frames,
+// reserved opcodes and bits, wrong masking for the role, non-minimal and 63/64-bit lengths, close
+// frames in the middle, compressed continuation frames.
+func vC07WsAdversarial(masked, deflate bool) func(r *vRng) []byte {
+	return func(r *vRng) []byte {
+		var out []byte
+		for i, n := 0, r.rng(2, 6); i < n; i++ {
+			op := r.pickInt(0, 0, 1, 2, 1, 2, 8, 9, 10, 3, 7, 11, 15)
+			fin := r.chance(1, 2)
+			rsv := byte(r.pickInt(0, 0, 0, 0x40, 0x20, 0x10, 0x70))
+			if deflate && r.chance(1, 2) {
+				rsv = 0x40
+			}
+			payload := r.bytes(r.pickInt(0, 0, 1, 2, 5, 125, 126, 200))
+			if op == 8 && r.chance(2, 3) {
+				code := r.pickInt(1000, 1005, 999, 3000, 5000)
+				payload = append([]byte{byte(code >> 8), byte(code)}, r.pickStr("", "x", "\xff\xfe")...)
+			}
+			m := masked
+			if r.chance(1, 8) {
+				m = !m
+			}
+			fr := vC07WsFrame(r, m, fin, op, rsv, payload, r.intn(3))
+			if r.chance(1, 8) && len(fr) >= 2 {
+				// a 64-bit length field with extreme values in front of a short body
+				hdr := []byte{fr[0], fr[1]&0x80 | 127}
+				v := r.pickU64(0, 1, 125, 1<<63-1, 1<<63, 1<<64-1, 1<<32, 65536)
+				for j := 7; j >= 0; j-- {
+					hdr = append(hdr, byte(v>>uint(8*j)))
+				}
+				fr = append(hdr, r.bytes(r.intn(12))...)
+			}
+			out = append(out, fr...)
 		}
 		return out
 	}
